@@ -410,7 +410,8 @@ def r4_selector(ctx, m, pat_alpha: str) -> None:
             return ("POSTPROCESSED", self)
     class ConditionOR(_Op): pass
     class ConditionAND(_Op): pass
-    env = {"ConditionOR": ConditionOR, "ConditionAND": ConditionAND}
+    class ConditionNOT(_Op): pass
+    env = {"ConditionOR": ConditionOR, "ConditionAND": ConditionAND, "ConditionNOT": ConditionNOT}
     IK = {"max_steps": 6000}
     table, problems = {}, []
     for q in ("1", "any", "all", "2", "none", "ALL", ""):
@@ -431,8 +432,9 @@ def r4_selector(ctx, m, pat_alpha: str) -> None:
     else:
         r.violation("C02.R4", pi.qual, "self.pattern = self.args[1]", problems[0], pi.loc)
     for q, klass in (("1", ConditionOR), ("all", ConditionAND)):
-        for ids in (["I1", "I2", "I3"], ["I1"], []):
-            dets, parent, src = object(), object(), object()
+        # the position of the selector (top level, below NOT, AND, OR) does not change what it stands for
+        for ids, parent in [(i_, p_) for i_ in (["I1", "I2", "I3"], ["I1"], []) for p_ in (object(), ConditionNOT([]), ConditionAND([]), ConditionOR([]), None)]:
+            dets, src = object(), object()
             me = Proxy(prog, SEL, env, {"args": [q, "sel*"], "source": None, "cond_class": klass, "pattern": "sel*", "parent": None,
                                        "resolve_referenced_detections": lambda d_, _ids=ids: list(_ids)}, interp_kwargs=IK)
             try:
